@@ -162,6 +162,14 @@ func renderScreen(ui *consoleui.UI, screenLines int) (crash string, err error, o
 	return
 }
 
+// c22MaxPointer = 2^64-148-128: the largest data pointer the generated programs
+// may be given without any access range reaching 2^64.
+var c22MaxPointer = new(big.Int).Sub(new(big.Int).Lsh(big.NewInt(1), 64), big.NewInt(148+128))
+
+// c22MaxFreePointer = 2^64-16: the largest value of x13 (offsets 0..7, widths up
+// to 8) with every access range ending below 2^64.
+var c22MaxFreePointer = new(big.Int).Sub(new(big.Int).Lsh(big.NewInt(1), 64), big.NewInt(16))
+
 func TestC22(t *testing.T) {
 	runWitnesses(t, "C22")
 	col := ev.New("C22", "rapid state machine over the real console UI (hooks feed lines to processCommand and render the "+
@@ -195,14 +203,23 @@ func TestC22(t *testing.T) {
 		// prompt gets the drawn answer unchanged
 		uiInput.dflt = "4096"
 		uiInput.adapt = func(prompt, line string) string {
-			if !strings.Contains(prompt, "value of register x8 ") && !strings.Contains(prompt, "value of register x9 ") {
+			limit := c22MaxPointer
+			switch {
+			case strings.Contains(prompt, "value of register x8 "), strings.Contains(prompt, "value of register x9 "):
+			case strings.Contains(prompt, "value of register x13 "):
+				// x13 is only used with offsets 0..7 and widths up to 8
+				limit = c22MaxFreePointer
+			default:
 				return line
 			}
 			v, ok := new(big.Int).SetString(strings.TrimSpace(line), 0)
 			if !ok {
 				return line
 			}
-			if v.Sign() < 0 || v.Cmp(big.NewInt(4096)) < 0 || v.BitLen() > 62 {
+			// offsets of generated accesses are -10..139 (+128 for the atomics' pointer),
+			// widths at most 8: a pointer of at most 2^64-148 never produces a range that
+			// ends at or beyond 2^64, one of at least 4096 never one below 0
+			if v.Sign() < 0 || v.Cmp(big.NewInt(4096)) < 0 || v.Cmp(limit) > 0 {
 				col.Excluded("access-at-end-of-address-space")
 				return "0x7010"
 			}
@@ -218,8 +235,9 @@ func TestC22(t *testing.T) {
 		// tiny programs too: listings shorter than the minimum height of the view;
 		// half of the programs contain indirect jumps whose target the prompt decides
 		rvFreeJalr = rapid.Bool().Draw(t, "freeJalrProgram")
+		rvFreeBase = rapid.Bool().Draw(t, "freeBaseProgram")
 		p := drawRVProgramMin(t, 1, 24)
-		rvFreeJalr = false
+		rvFreeJalr, rvFreeBase = false, false
 		ui, code, err := newProgramUI(p)
 		if err != nil {
 			t.Fatalf("cannot build UI: %v\n  program %s", err, p)
@@ -242,7 +260,10 @@ func TestC22(t *testing.T) {
 				for i, n := 0, uniformInt(t, 3, "nAnswers"); i < n; i++ {
 					menu := []string{"", "5", "xyz", "0x10", "-1", " ", "code", "code", "-129", "-256", "-32769", "-2147483649",
 						"-9223372036854775809", "255", "256", "0x10000", "4294967296", "18446744073709551615", "18446744073709551616",
-						"0xffffffffffffffffff", "0b101", "017", "+7", "1_000", "0x"}
+						"0xffffffffffffffffff", "0b101", "017", "+7", "1_000", "0x",
+						// the largest pointers that keep every access below 2^64: stores then reach
+						// the last 16-byte line of the address space
+						"18446744073709551340", "0xfffffffffffffeec", "0xfffffffffffffff0", "18446744073709551600", "0xfffffffffffffff0"}
 					a := menu[uniformInt(t, len(menu), "answer")]
 					if a == "code" {
 						// an address in or next to the code: instruction starts, the middle of
